@@ -333,7 +333,12 @@ def run(chk):
     chk.add(Ob("round trip: congruent values in [0,l) are equal (SetCanonicalBytes(Bytes(s)) = s and Bytes(SetCanonicalBytes(b)) = b follow from the contracts above)", str(s.check()), time.time() - t0, [], "LIA"))
     for nm, e in (("scalarTwo168", 168), ("scalarTwo336", 336)):
         g = base.global_val(E + nm)
-        ev = sum(int(x) << (64 * i) for i, x in enumerate(g[0]))
+        try:
+            si = [f_["name"] for f_ in prog.T(E + "Scalar").u.fields].index("s")
+            ev = sum(int(x) << (64 * i) for i, x in enumerate(g[si]))
+        except Exception as e_:
+            chk.note_inconclusive("constant %s could not be read (%r)" % (nm, e_))
+            continue
         chk.fact("%s = 2^%d * 2^256 mod l (Montgomery form), reduced" % (nm, e), ev == (2**e) * (2**256) % L, [E + "init"], "concrete")
     chk.samples = [o.j() for o in chk.obs if "value =" in o.name][:6]
 
